@@ -26,7 +26,22 @@ What is deliberately NOT enumerated (outside the specified domain, or known engi
   * `let x` at function level when `x` is a parameter of the same function (same scope, not an inner scope);
   * writing to a `for` variable; writing to a captured variable from the nested function or after the nested function
     has been defined (capture by value or by reference is not specified: the VM copies, the evaluator shares);
-  * nested functions on the native engine (do not compile: known).
+  * nested functions on the native engine (do not compile: known);
+  * a function-typed local holding ANOTHER function than the one it is named after, while a third function calls
+    the shadowed function by name: on the evaluator that is the same known dynamic resolution (the callee finds the
+    caller's local) -> those scf units are (vm, native).
+
+Genuine defects this family isolated when it was written (units kept; repairs /var/tmp/fix-X-sc-<n>.diff,
+reproducers /var/tmp/repro-X-sc-<n>.nano):
+  1 VM: a `let` in an unsafe block (and a match-arm binding) stays visible after the block / arm
+  2 type checker: the range bounds of a `for` are checked with the loop variable already in scope
+  3 native: `for x in (range x (+ x 2))` initialises the C loop variable from itself (garbage start, endless loop)
+  4 native + type checker: later passes look names up by source position without regard to where a scope ENDS
+    (after an inner scope that re-declares a name with another type the outer variable gets the inner type);
+    a parameter of a nested function does not hide an outer variable of the same name
+  5 native: a local / parameter named like a function is emitted as the function and calls through it go to the
+    function; a function-typed local inside an unsafe block / match arm has no C type
+  6 native: str_length is C's unsigned strlen: `(< i (str_length s))`, `for i in (range 0 (str_length s))` do not compile
 """
 import itertools
 
